@@ -339,7 +339,7 @@ class Check(core.CheckBase):  # pylint: disable=too-many-instance-attributes
                     forget(item)
                     self.stats['items_changed_outside'] += 1
                     continue
-            elif model and room > 64 and hasattr(model[0], '__dict__') and rng.random() < 0.06:
+            elif model and room > 64 and hasattr(model[0], '__dict__') and rng.random() < 0.2:
                 spot = rng.randrange(len(model))
                 clone = copy.deepcopy(model[spot])
                 if grow(copy.deepcopy(clone)):
